@@ -9,7 +9,7 @@
    is NOT formalised: see C08_orbit_stationary_bounded for what is machine-checked of it. *)
 From CV Require Import Base.Tac Base.Ext Base.LinAlg Base.QcLin Model.C08_NUTS.
 From CV Require Import Proofs.C08_Prog Proofs.C08_Leap Proofs.C08_Tree Proofs.C08_Top Proofs.C08_Law Proofs.C08_Orbit
-                       Proofs.C08_Stationary Proofs.C08_Block Proofs.C08_Alive.
+                       Proofs.C08_Stationary Proofs.C08_Block Proofs.C08_Alive Proofs.C08_Sim Proofs.C08_LeapD.
 From Coq Require Import QArith Qcanon Qminmax Ring.
 Local Open Scope Q_scope.
 
@@ -271,6 +271,51 @@ Theorem C08_stepsize_frozen :
   sched_run s (EvPreSample :: repeat EvStep (Datatypes.S n)) = Some (mkSched b (Some b), sc_eps s :: repeat b n).
 Proof. intros E n s. exact (sched_sampling E n s). Qed.
 Print Assumptions C08_stepsize_frozen.
+
+(* ---- the orbit abstraction is exact --------------------------------------------------------------------- *)
+(* Over ANY state space on which the two directions of the integrator undo each other (on an invariant set of states:
+   well-shaped, caches consistent), the transition from s0 is -- outcome by outcome, probability by probability --
+   the image of the orbit transition from position 0 under the orbit map phi through s0 (phi 0 = s0,
+   leap v (phi i) = phi (i +- 1)), with the orbit's Hamiltonian / log-density / U-turn predicate read off through phi.
+   So every theorem above about `otransition` (C08_alive_law, C08_start_position_law, C08_orbit_stationary, ...) is a
+   theorem about `transition` over the real phase space. *)
+Theorem C08_orbit_abstraction_exact :
+  forall (S : Type) (leap : bool -> S -> S) (ham lgd : S -> ext) (uturn : S -> S -> bool) (alpha : S -> Q) (logu : ext)
+         (Inv : S -> Prop),
+  (forall v s, Inv s -> Inv (leap v s)) -> (forall v s, Inv s -> leap (negb v) (leap v s) = s) ->
+  forall s0, Inv s0 -> forall guard max_depth (f : top S -> Q),
+  let phi := orb S leap s0 in
+  phi 0%Z = s0 /\ (forall v i, leap v (phi i) = phi (zleap v i)) /\
+  dist (transition S leap ham lgd uturn alpha logu guard max_depth s0) f
+  == dist (otransition (Hz S ham phi) (Lz S lgd phi) (Uz S uturn phi) (Az S alpha phi) logu guard max_depth 0%Z)
+          (fun st => f (topmap S phi st)).
+Proof.
+  intros S leap ham lgd uturn alpha logu Inv HI Hb s0 H0 guard md f phi.
+  destruct (orbit_abstraction_exact S leap ham lgd uturn alpha logu Inv HI Hb s0 H0 guard md f) as [E0 E1].
+  split; [exact E0 | split; [exact (orb_leap S leap Inv HI Hb s0 H0) | exact E1]].
+Qed.
+Print Assumptions C08_orbit_abstraction_exact.
+
+(* ... and the concrete phase-space model that the correspondence compares leaf by leaf with both implementations
+   (c_transition: states over Qc, the leapfrog of Model/C08_NUTS.v, the targets of the harness) is such an instance:
+   the hypothesis "the two directions undo each other" is the reversibility theorem, proved for every target of
+   dimension d; well-formed targets of the harness are d-dimensional. *)
+Theorem C08_concrete_is_orbit :
+  forall (t : target) (d : nat) (guard : bool) (max_depth : nat) (heps : Qc) (x z : list Qc) (e : Q) (f : top cstate -> Q),
+  wf_target t d -> length x = d -> length z = d ->
+  let s0 := c_init t x z in
+  let logu := ext_sub (c_ham t s0) (Fin e) in
+  let phi := orb cstate (c_leap t heps) s0 in
+  phi 0%Z = s0 /\
+  dist (c_transition t guard max_depth heps x z e) f
+  == dist (otransition (Hz cstate (c_ham t) phi) (Lz cstate (c_lgd t) phi) (Uz cstate c_uturn_ok phi)
+                       (Az cstate (fun _ => 0) phi) logu guard max_depth 0%Z)
+          (fun st => f (topmap cstate phi st)).
+Proof.
+  intros t d guard md heps x z e f Hw Hx Hz.
+  exact (concrete_orbit_exact t d guard md heps x z e f (wf_target_dim t d Hw) Hx Hz).
+Qed.
+Print Assumptions C08_concrete_is_orbit.
 
 (* ---- invariance on one orbit, bounded (tier 2) -------------------------------------------------------- *)
 (* The counting measure on the in-slice positions of an orbit is invariant under the COMPLETE transition (stopping
